@@ -209,3 +209,38 @@ def c14_gated_model(x):
 
 def c14_gated_failing(x):
     return c14_gated(x, gain=0.5) + 1.0
+
+
+# ---- C13: user classes that *inherit* the attribute jax2onnx patches from a library layer ----
+from flax import nnx as _nnx  # noqa: E402
+
+
+@onnx_function
+class C13InheritedLinear(_nnx.Linear):
+    """Only a custom constructor: `__call__` is inherited from nnx.Linear (which has a leaf plugin)."""
+
+    def __init__(self, rngs):
+        super().__init__(3, 4, rngs=rngs)
+
+
+@onnx_function
+class C13InheritedLayerNorm(_nnx.LayerNorm):
+    def __init__(self, rngs):
+        super().__init__(3, rngs=rngs)
+
+
+@onnx_function
+class C13OverridingLinear(_nnx.Linear):
+    def __init__(self, rngs):
+        super().__init__(3, 4, rngs=rngs)
+
+    def __call__(self, x):
+        return super().__call__(x) * 2.0
+
+
+class C13PlainSubclass(_nnx.Linear):
+    def __init__(self, rngs):
+        super().__init__(3, 4, rngs=rngs)
+
+
+C13_USER_CLASSES = (C13InheritedLinear, C13InheritedLayerNorm, C13OverridingLinear, C13PlainSubclass)
